@@ -4,7 +4,7 @@ from __future__ import annotations
 from hypothesis import strategies as st
 
 from .. import gen, sgr
-from ..cells import build, cells, cells_of_desc, show
+from ..cells import build_any, cells, cells_of_desc, show
 from ..common import Res, call, exc_str, hyp_campaign
 
 PROP = "C05"
@@ -52,7 +52,9 @@ def run_case(case):
         if any(not t for t, a in desc):
             res.label("empty_run")
         res.nontrivial = bool(res.labels & {"multi_format", "newline"})
-        f, e = call(build, desc, case.get("build", "chunks"))
+        if case.get("build") in gen.DERIVED_BUILDS:
+            res.label("derived_from_observed_parent")
+        f, e = call(build_any, desc, case.get("build", "chunks"), case.get("obs", 0))
         if e is not None:
             res.viol("build_raised", error=exc_str(e))
             return res
@@ -92,16 +94,18 @@ def strategy():
     rt = st.fixed_dictionaries(
         {
             "kind": st.just("roundtrip"),
-            "desc": gen.desc(alphabet=TEXT_ALPHA, max_runs=6, max_len=4),
-            "build": st.sampled_from(["chunks", "fmtstr", "names"]),
+            "desc": gen.desc_sized(alphabet=TEXT_ALPHA, max_runs=6, max_len=4),
+            "build": gen.BUILDS,
+            "obs": gen.OBS,
         }
     )
     tok = st.one_of(
         st.tuples(st.just("t"), gen.text(TEXT_ALPHA, 1, 4)).map(list),
         st.tuples(st.just("s"), st.lists(st.sampled_from(PARAMS), min_size=0, max_size=4)).map(list),
+        st.tuples(st.just("s"), st.lists(st.sampled_from(PARAMS), min_size=5, max_size=40)).map(list),
         st.tuples(st.just("s"), st.lists(st.sampled_from([0, 39, 49]), min_size=1, max_size=2)).map(list),
     )
-    gr = st.fixed_dictionaries({"kind": st.just("grammar"), "tokens": st.lists(tok, min_size=0, max_size=10)})
+    gr = st.fixed_dictionaries({"kind": st.just("grammar"), "tokens": st.one_of(st.lists(tok, min_size=0, max_size=10), st.lists(tok, min_size=0, max_size=10), st.lists(tok, min_size=20, max_size=70))})
     return st.one_of(rt, gr)
 
 
